@@ -41,7 +41,7 @@ def typeExt : Nat := 33
 def nameExt : Nat := 64
 def callExt : Nat := 40
 
-/-! ## four facts about the control flow of `xds_decoder` / `flush_prog_info`
+/-! ## five facts about the control flow of `xds_decoder` / `flush_prog_info`
 
 Read from the current text of src/caption.c by `translate/gen_xdsdec.py` on every run
 (`Generated/XdsDecFlags.lean`); the model is written for both values of each, so applying or reverting a
@@ -62,6 +62,11 @@ def flushAspectAnyClass : Bool := Gen.XdsDec.flushAspectAnyClass
     aspect ratio packet of the *future* class changes the current programme (and sends ASPECT);
     `false` (since 201beae): it uses `pi->aspect`, ASPECT and `aspect_source` only for the current class -/
 def aspectAlwaysCurrent : Bool := Gen.XdsDec.aspectAlwaysCurrent
+/-- `case 1` counts a changed tape-delay flag as a change of the programme id packet (sets bit 1 of
+    `info_cycle`, announced by the repeat; no flush - it is not a new programme);
+    `false` (the tree before fixes/C09-pid-tape-delay-never-announced.diff): the flag is stored at once
+    but never counted, so a packet that changes only the flag is never announced -/
+def pidTapeDelayCounted : Bool := Gen.XdsDec.pidTapeDelayCounted
 
 /-! ## character arrays -/
 
@@ -256,7 +261,7 @@ def feed (v : Info) (cls typ : Nat) (d : List Nat) (nx : Nat) : Info × Out :=
       let v3 := f.1.setPi cls { f.1.pi cls with month := (month : Int) - 1, day := (day : Int) - 1, hour := hour, min := mi,
                                                  tapeDelayed := td }
       fin v3 cls 1 true f.2 none
-    else fin v1 cls 1 false [] none
+    else fin v1 cls 1 (pidTapeDelayCounted && pi.tapeDelayed != td) [] none
   | 2 =>
     if n < 2 ∨ n > 6 then (v, {}) else
     let lhour : Int := ((b 1 &&& 63 : Nat) : Int)
